@@ -634,7 +634,14 @@ def _fresh_result(ctx, path, f, contract, env):
                 vs.append(ctx._select(path, parts[1], V.oid(selfv.t)))
     fn = ctx.func(f"RES_{contract.target}", *([V] * len(vs)), V)
     t = fn(*vs) if vs else z3.Const(f"RES_{contract.target}", V)
-    return Val(t, None, own="fresh")
+    ann = None
+    if not contract.verify and f.node.returns is not None:
+        # assumed contract: the declared return annotation is part of the assumption
+        ann = ctx.parse_ann(f.mi, f.node.returns)
+        fct = ann_fact(t, ann, ctx.ct) if ann is not None else None
+        if fct is not None:
+            path.assume(fct, f"declared return shape of the assumed contract {contract.target}")
+    return Val(t, ann, own="fresh")
 
 
 # ------------------------------------------------------------------------------------------------ verification of a target
